@@ -1,5 +1,6 @@
 import RsMatterVerif.Lemmas.Transport
 import RsMatterVerif.Lemmas.TxWire
+import RsMatterVerif.Lemmas.IdHist
 import RsMatterVerif.Model.TxGuard
 /-!
 # C15 — a nonce is never used for two different messages
@@ -702,6 +703,118 @@ example :
     let s : Sess := { uid := 0, ctr := 0, exchs := [some { id := 0x1234, role := .io }] }
     let t : Table := { nextExch := 0x1234, sessions := [s] }
     t.nextExchId.2 = 0x1235 := by decide
+
+/-! ## 5. Uniqueness of the identifiers along every history -/
+
+/-- **The allocator loops terminate** (the Rust `loop { … }` has no bound): on every table within the
+capacities `MAX_SESSIONS` / `MAX_EXCHANGES` the explicit-divergence versions of the two allocators
+answer — never `none` — and answer what the executable model's total `allocLoop` computes. The
+`length < 65535` hypotheses of the freshness theorems follow from `Cap` (`Transport.cap_lengths`,
+`maxSessions · maxExchanges < 65535`). -/
+theorem allocators_terminate (t : Table) (hcap : Cap t) (h1 : 1 ≤ t.nextSid) (h2 : t.nextSid ≤ 65535)
+    (h3 : t.nextExch ≤ 65535) (cand : Nat) :
+    t.nextSessIdD = some t.nextSessId ∧ t.nextExchIdD cand = some (t.seedExch cand).nextExchId := by
+  have hl := cap_lengths t hcap
+  constructor
+  · unfold Table.nextSessIdD Table.nextSessId
+    have ht := allocLoopD_terminates t.liveSessIds t.nextSid h1 h2 hl.1
+    cases h : allocLoopD t.liveSessIds 65536 t.nextSid with
+    | none => rw [h] at ht; cases ht
+    | some r => rw [allocLoopD_eq _ _ _ r h]; rfl
+  · have hr := seedExch_range t cand h3
+    have hl2 : (t.seedExch cand).liveInitExchIds.length < 65535 := by
+      unfold Table.liveInitExchIds
+      rw [seedExch_sessions]
+      exact hl.2
+    unfold Table.nextExchIdD Table.nextExchId
+    simp only
+    have ht := allocLoopD_terminates _ _ hr.1 hr.2 hl2
+    cases h : allocLoopD (t.seedExch cand).liveInitExchIds 65536 (t.seedExch cand).nextExch with
+    | none => rw [h] at ht; cases ht
+    | some r => rw [allocLoopD_eq _ _ _ r h]; rfl
+
+/-- the default (empty, never used) table satisfies the hypotheses: `next_exch_id = 0` is the
+"not seeded" state, handled by the seeding branch (`Table.seedExch`), and the id `get_next_exch_id`
+then answers is never 0 -/
+example : Cap ({} : Table) ∧ 1 ≤ ({} : Table).nextSid ∧ ({} : Table).nextExch ≤ 65535 ∧
+    (({} : Table).nextExchIdD 0).map (·.2) = some 1 ∧ (({} : Table).nextExchIdD 0x1234).map (·.2) = some 0x1234 := by
+  refine ⟨⟨by decide, fun s hs => by cases hs⟩, by decide, by decide, by decide, by decide⟩
+
+/-- the exchange-id allocator including the seeding branch never answers a live initiator id, never 0 -/
+theorem nextExchIdD_fresh (t t' : Table) (cand x : Nat) (h3 : t.nextExch ≤ 65535)
+    (h : t.nextExchIdD cand = some (t', x)) : x ∉ t.liveInitExchIds ∧ 1 ≤ x ∧ x ≤ 65535 ∧ 1 ≤ t'.nextExch ∧ t'.nextExch ≤ 65535 := by
+  unfold Table.nextExchIdD at h
+  simp only [Option.map_eq_some_iff] at h
+  obtain ⟨r, hr, heq⟩ := h
+  obtain ⟨x', nx⟩ := r
+  simp only [Prod.mk.injEq] at heq
+  obtain ⟨ht', hx⟩ := heq
+  subst hx
+  have hrange := seedExch_range t cand h3
+  obtain ⟨k, _, hxk, hnk, hfresh, _⟩ := allocLoopD_spec _ _ _ _ _ hr
+  have hlive : (t.seedExch cand).liveInitExchIds = t.liveInitExchIds := by
+    unfold Table.liveInitExchIds; rw [seedExch_sessions]
+  rw [hlive] at hfresh
+  have h1 := bumpIter_range k _ hrange.1 hrange.2
+  have h2 := bumpIter_range (k + 1) _ hrange.1 hrange.2
+  rw [← ht']
+  exact ⟨hfresh, by omega, by omega, by simp only; omega, by simp only; omega⟩
+
+open C15 in
+/-- **Local session ids are unique among the live sessions — along every history.** Start from a
+table within capacity whose secure sessions have pairwise distinct local ids (e.g. the empty
+table); run ANY history of `Sessions::add` / `reserve_now`, `get_next_sess_id` (start of a
+handshake), `ReservedSession::update` installing an id that `get_next_sess_id` handed out (not an
+arbitrary one), handshakes abandoned, `complete`, `get`, `remove`, eviction. If no handed-out id
+stays un-installed while the allocator consumes 65535 further candidates (`staleFree` — the
+allocator looks only at INSTALLED ids; without this an id handed to a stalled handshake is handed
+out again after a full round: `stale_id_is_handed_out_again`), then in the final table any two
+sessions with the same local id have id 0 (unsecured / not installed yet), and the ids handed out and
+not yet installed are distinct from each other and from every installed id. -/
+theorem sessIds_unique_always (t0 : Table) (hcap : t0.sessions.length ≤ Consts.maxSessions)
+    (h1 : 1 ≤ t0.nextSid) (h2 : t0.nextSid ≤ 65535) (hu : SessUniq t0.sessions)
+    (ops : List SidOp) (hs : staleFree { t := t0 } ops) :
+    let st := runSid { t := t0 } ops
+    st.t.sessions.Pairwise (fun a b => a.localSid = b.localSid → a.localSid = 0) ∧
+    st.out.Pairwise (fun p q => p.1 ≠ q.1) ∧ ∀ p ∈ st.out, ∀ s ∈ st.t.sessions, s.localSid ≠ p.1 := by
+  have g0 : SidInv t0.nextSid { t := t0 } :=
+    { c0r := ⟨h1, h2⟩, pos := rfl, outPos := fun p hp => (by cases hp), cap := hcap, uniq := hu,
+      outFresh := fun p hp => (by cases hp), outDistinct := List.Pairwise.nil }
+  have g := sidInv_run ops _ g0 hs
+  refine ⟨?_, g.outDistinct, g.outFresh⟩
+  rw [List.pairwise_iff_getElem]
+  intro i j hi hj hij heq
+  apply Classical.byContradiction
+  intro hne
+  have := g.uniq i j _ _ (List.getElem?_eq_getElem hi) (List.getElem?_eq_getElem hj) heq hne
+  omega
+
+open C15 in
+/-- non-vacuity: two interleaved handshakes on the empty table — both allocate before either
+installs; ids 1 and 2; a removal and a third handshake re-using nothing live -/
+example :
+    let ops : List SidOp := [.add 5 true 0 0, .add 6 true 0 0, .alloc, .alloc, .install 1 0 77 .case 0,
+      .install 0 0 78 .pase 0, .remove 1, .add 7 true 0 0, .alloc, .install 2 0 79 .case 0]
+    staleFree {} ops ∧ (runSid {} ops).t.sessions.map (fun s => (s.uid, s.localSid)) = [(0, 2), (2, 3)] := by
+  intro ops
+  refine ⟨?_, by decide⟩
+  simp only [ops, staleFree, NoStale]
+  decide
+
+open C15 in
+/-- **The hypothesis is needed**: `get_next_sess_id` sees only installed ids. Id 1 is handed to a
+handshake that stalls; the allocator is brought round (here by positioning it; in the code by 65535
+further allocations) and hands out 1 again; both handshakes install it: two live sessions with local
+id 1. -/
+theorem stale_id_is_handed_out_again :
+    let st : SidSt := { t := { nextSid := 1, sessions := [{ uid := 0, ctr := 0, reserved := true }, { uid := 1, ctr := 0, reserved := true }] },
+                        tick := 65535, out := [(1, 0)] }
+    let st' := runSid st [.alloc, .install 0 0 7 .case 0, .install 1 0 8 .case 0]
+    ¬ NoStale (stepSid st .alloc) ∧ st'.t.sessions.map (·.localSid) = [1, 1] := by
+  intro st st'
+  refine ⟨?_, by decide⟩
+  simp only [NoStale, st]
+  decide
 
 /-! ## 4. The payload of a retransmission (`TxMessage::complete`, repo fix `C15-retransmission-rebuilt-differs`) -/
 
